@@ -218,7 +218,7 @@ func RunC09b(p *StressProgram) Result {
 		atomic.AddInt32(&activeTx, -1)
 	}
 
-	guard := func(name string, fn func()) {
+	guard := func(name string, fn func(release func())) {
 		wg.Add(1)
 		lastBegin.Add(1)
 		go func() {
@@ -236,18 +236,32 @@ func RunC09b(p *StressProgram) Result {
 					fail(&harness.Violation{Clause: "panic", Item: -1, Msg: fmt.Sprintf("%s paniced: %v", name, x)})
 				}
 			}()
-			fn()
+			early := func() {
+				// with EarlyClose the closer may start as soon as every actor has made its
+				// last Begin call: File.Close then runs concurrently with the last open transactions
+				if p.EarlyClose {
+					release()
+				}
+			}
+			fn(early)
 		}()
 	}
 
 	// model writers
 	for wi := range p.Writers {
 		txs := p.Writers[wi]
-		guard(fmt.Sprintf("writer %d", wi), func() {
+		guard(fmt.Sprintf("writer %d", wi), func(lastBeginDone func()) {
 			for ti := range txs {
 				yield()
 				wmu.Lock()
-				v := r.RunTxHooked(1000+wi*100+ti, &txs[ti], func() { enter(true); yield() }, func() { leave(true) })
+				last := ti == len(txs)-1
+				v := r.RunTxHooked(1000+wi*100+ti, &txs[ti], func() {
+					if last {
+						lastBeginDone()
+					}
+					enter(true)
+					yield()
+				}, func() { leave(true) })
 				wmu.Unlock()
 				if v != nil {
 					fail(v)
@@ -259,13 +273,16 @@ func RunC09b(p *StressProgram) Result {
 	// contenders: empty write transactions, not serialised by the harness
 	for ci, n := range p.Contenders {
 		n := n
-		guard(fmt.Sprintf("contender %d", ci), func() {
+		guard(fmt.Sprintf("contender %d", ci), func(lastBeginDone func()) {
 			for i := 0; i < n; i++ {
 				yield()
 				tx, err := f.Begin()
 				if err != nil {
 					fail(&harness.Violation{Clause: "begin", Item: -1, Msg: fmt.Sprintf("Begin failed: %v", err)})
 					return
+				}
+				if i == n-1 {
+					lastBeginDone()
 				}
 				enter(true)
 				yield()
@@ -289,8 +306,8 @@ func RunC09b(p *StressProgram) Result {
 	// readers: read pages twice inside one transaction; contents must be stable
 	for ri := range p.Readers {
 		script := p.Readers[ri]
-		guard(fmt.Sprintf("reader %d", ri), func() {
-			for _, npages := range script {
+		guard(fmt.Sprintf("reader %d", ri), func(lastBeginDone func()) {
+			for si, npages := range script {
 				yield()
 				// Take the snapshot of the model together with the read transaction:
 				// model writers hold wmu for their whole transaction, so no state
@@ -302,6 +319,9 @@ func RunC09b(p *StressProgram) Result {
 				if err != nil {
 					fail(&harness.Violation{Clause: "begin", Item: -1, Msg: fmt.Sprintf("BeginReadonly failed: %v", err)})
 					return
+				}
+				if si == len(script)-1 {
+					lastBeginDone()
 				}
 				enter(false)
 				hs := snap.Handles(func(h int, p harness.MPage) bool { return p.Data != nil })
@@ -343,11 +363,6 @@ func RunC09b(p *StressProgram) Result {
 	// closer
 	closed := make(chan error, 1)
 	go func() {
-		if p.EarlyClose {
-			// Close may start as soon as nobody will call Begin any more; the last
-			// transactions may still be open. Simplification: wait for all actors'
-			// scripts (they release lastBegin at exit).
-		}
 		lastBegin.Wait()
 		closed <- f.Close()
 	}()
